@@ -335,13 +335,32 @@ def rule_manual_tick_gated(ctx, crate, rule="R-MANUAL-TICK-GATED"):
                 return sl.has_call(r"std::option::Option::<T>::is_some") and not sl.has_call(r"std::option::Option::<T>::is_none") and \
                     not [a for a in sl.atoms if a[0] == "unop"] and locks_slot(sl)
             g = K.guarded_by_true_of(ti, c.bb, pred) or K.guarded_by_false_of(ti, c.bb, npred)
+            # the gate may also ask whether the installed ticker's thread still runs (`slot.as_ref().map_or(false, Ticker::is_running)`)
+            if g is None:
+                def live_pred(sl):
+                    return locks_slot(sl) and K.deep_has_call(crate, sl, r"std::thread::JoinHandle::<T>::is_finished") and \
+                        not sl.has_call(r"std::option::Option::<T>::is_none")
+                g = K.guarded_by_false_of(ti, c.bb, live_pred) or K.guarded_by_true_of(ti, c.bb, lambda sl: live_pred(sl) and bool([a for a in sl.atoms if a[0] == "unop"]))
             ctx.check(g is not None, rule, "tick_inner", ti.name, c.loc(), "manual tick only when no ticker is installed (slot.is_none())",
                       "manual ticks advance the spinner although a steady ticker is installed", cfg)
+            # ... and "installed" has to mean "its thread runs": the thread leaves its loop when the bar is finished, the bar can be
+            # reset() afterwards, and a gate that only looks at the slot then suppresses manual ticks for a thread that is gone -
+            # nothing redraws the bar any more
+            rn_ = crate.body("progress_bar::TickerControl::run")
+            thread_can_exit_alive = bool(rn_ and rn_.calls(r"state::ProgressState::is_finished"))
+            if thread_can_exit_alive:
+                sls = [ti.slice_switch(sb) for sb, t in ti.switches() if any(ti.edge_dominates((sb, x), c.bb) for x in ti.succ(sb))]
+                live = any(K.deep_has_call(crate, sl, r"std::thread::JoinHandle::<T>::is_finished") for sl in sls)
+                ctx.check(live, rule, "gate-means-thread-runs", ti.name, c.loc(),
+                          "the gate suppresses manual ticks only while the ticker's thread is running",
+                          "the ticker thread exits when the bar is finished but its Ticker stays in the slot; manual ticks are suppressed by slot occupancy alone: after "
+                          "enable_steady_tick(..); finish(); reset() neither the thread nor inc()/tick() redraws the bar", cfg)
     up = K.find_one(ctx, crate, rule, r"progress_bar::ProgressBar::update")
     if up:
         for c in up.calls(r"state::BarState::update"):
             sl = up.slice_args(c, [3])
-            ok = sl.has_call(r"std::option::Option::<T>::is_none") and sl.has_field("ticker", "progress_bar::ProgressBar")
+            ok = (sl.has_call(r"std::option::Option::<T>::is_none") or K.deep_has_call(crate, sl, r"std::thread::JoinHandle::<T>::is_finished")) and \
+                sl.has_field("ticker", "progress_bar::ProgressBar")
             ctx.check(ok, rule, "update-flag", up.name, c.loc(), "update() passes tick = ticker_slot.is_none()", "update() ticks regardless of the steady ticker", cfg)
     bu = K.find_one(ctx, crate, rule, r"state::BarState::update")
     if bu:
